@@ -44,6 +44,11 @@ pub enum Step {
     /// writing) while the earlier Popens are alive: the forked child holds a copy
     /// of every descriptor of the parent until it exits, so it must not linger
     SpawnBusyText,
+    /// daemon-style parent (own fds in the mask closed): a child with piped stdin
+    /// and/or stdout is spawned - the parent's ends of its pipes land on the free
+    /// numbers 0-2 - and then a second child with nothing redirected, which must not
+    /// get hold of them
+    DaemonPair(u8, bool, bool),
 }
 
 #[derive(Clone, Debug, Serialize, Deserialize)]
@@ -463,6 +468,64 @@ pub fn check_history(ctx: &Ctx, case: &LeakCase, rep: &mut CaseReport) -> CaseRe
                         result = fail("spawn-error", context, e.to_string());
                         break 'steps;
                     }
+                }
+            }
+            Step::DaemonPair(mask, pin, pout) => {
+                context = "daemon-pair";
+                let (pin, pout) = if !*pin && !*pout { (true, false) } else { (*pin, *pout) };
+                let mut found: Option<Leak> = None;
+                let mut problem: Option<String> = None;
+                {
+                    // everything that may sit on descriptors 0-2 is gone again before the guard restores them
+                    let _g = CloseGuard::new(*mask & 7);
+                    let cfg_a = PopenConfig { stdin: if pin { Redirection::Pipe } else { Redirection::None }, stdout: if pout { Redirection::Pipe } else { Redirection::None }, ..Default::default() };
+                    let s0 = ip::pipes_snapshot().len();
+                    match Popen::create(&child_argv(if pin { SK::Pipe } else { SK::None }), cfg_a) {
+                        Err(e) => problem = Some(e.to_string()),
+                        Ok(mut a) => {
+                            let apid = a.pid().unwrap_or(0);
+                            let s1 = ip::pipes_snapshot().len();
+                            let created_b = Popen::create(&child_argv(SK::None), PopenConfig::default());
+                            let snap = ip::pipes_snapshot();
+                            for p in &snap[s0.min(snap.len())..] {
+                                w.pipes.insert(p.ino, *p);
+                            }
+                            for first in [snap.get(s0), snap.get(s1)].into_iter().flatten() {
+                                w.status.insert(first.ino);
+                            }
+                            if let Some(f) = &a.stdin {
+                                w.owner.insert(fd_ident(f.as_raw_fd()).1, (apid, true));
+                            }
+                            if let Some(f) = &a.stdout {
+                                w.owner.insert(fd_ident(f.as_raw_fd()).1, (apid, false));
+                            }
+                            match created_b {
+                                Err(e) => problem = Some(e.to_string()),
+                                Ok(mut b) => {
+                                    let bpid = b.pid().unwrap_or(0);
+                                    if let Err(l) = audit_child(bpid, &w, context) {
+                                        found = Some(l);
+                                    } else if let Err(l) = audit_child(apid, &w, context) {
+                                        found = Some(l);
+                                    }
+                                    let _ = b.kill();
+                                    let _ = b.wait();
+                                }
+                            }
+                            drop(a.stdin.take());
+                            drop(a.stdout.take());
+                            let _ = a.kill();
+                            let _ = a.wait();
+                        }
+                    }
+                }
+                if let Some(l) = found {
+                    result = fail(l.kind, context, l.detail);
+                    break 'steps;
+                }
+                if let Some(e) = problem {
+                    result = fail("spawn-error", context, e);
+                    break 'steps;
                 }
             }
             Step::SpawnBusyText => {
@@ -954,6 +1017,7 @@ pub fn history_strategy() -> impl Strategy<Value = LeakCase> {
         2 => any::<bool>().prop_map(Step::SpawnToUserPipe),
         2 => (1u8..8).prop_map(Step::SpawnClosedStd),
         1 => Just(Step::SpawnBusyText),
+        2 => (1u8..8, any::<bool>(), any::<bool>()).prop_map(|(m, a, b)| Step::DaemonPair(m, a, b)),
     ];
     prop::collection::vec(step, 1..13).prop_map(|steps| LeakCase { steps })
 }
